@@ -1,6 +1,8 @@
 package main
 
 import (
+	simdjson "github.com/minio/simdjson-go"
+
 	"bufio"
 	"encoding/json"
 	"flag"
@@ -158,6 +160,49 @@ func vfloatfmt(args []string) error {
 		rep.Nontrivial++
 		if i%9973 == 0 {
 			rep.Sample(map[string]string{"bits": sig, "printed": got}, 8)
+		}
+	}
+	// the same floats IN CONTEXT: after a literal, a key and a string containing the byte 'e', after another float, as an object
+	// value, and appended to a buffer that already holds text - the printed form may not depend on what was printed before
+	cpj, cerr := run.Parse([]byte(`{"e":true,"k":"eee","v":[false,0.5,0.5],"x":0.5}`), run.Cfg{AVX512: run.HasAVX512, Copy: true}, nil)
+	if cerr != nil {
+		return cerr
+	}
+	var slots []simdjson.Iter
+	walk := cpj.Iter()
+	for {
+		tg := walk.AdvanceInto()
+		if tg == simdjson.TagEnd {
+			break
+		}
+		if tg == simdjson.TagFloat {
+			slots = append(slots, walk)
+		}
+	}
+	if len(slots) != 3 {
+		return fmt.Errorf("context document: %d float slots", len(slots))
+	}
+	uniq := make([]float64, 0, len(seen))
+	for _, f := range vals {
+		uniq = append(uniq, f)
+	}
+	for i := range uniq {
+		fsel := [3]float64{uniq[i], uniq[(i*7+3)%len(uniq)], uniq[(i*13+5)%len(uniq)]}
+		var refs [3]string
+		for k := range fsel {
+			if serr := slots[k].SetFloat(fsel[k]); serr != nil {
+				return serr
+			}
+			rb, _ := json.Marshal(fsel[k])
+			refs[k] = string(rb)
+		}
+		want := `{"e":true,"k":"eee","v":[false,` + refs[0] + `,` + refs[1] + `],"x":` + refs[2] + `}`
+		root := cpj.Iter()
+		mb, merr := root.MarshalJSONBuffer([]byte("prefix-e:"))
+		rep.Evaluations++
+		if merr != nil || string(mb) != "prefix-e:"+want {
+			rep.Add(run.Mismatch{Property: *prop, Sig: fmt.Sprintf("in-context:%016x", math.Float64bits(fsel[0])), Text: want,
+				Want: "prefix-e:" + want + " (encoding/json for each number)", Got: fmt.Sprintf("%s %v", mb, merr)})
 		}
 	}
 	_ = big.NewInt
